@@ -260,6 +260,15 @@ func (c *Ctx) RuleErrZero(fns []*ssa.Function) {
 			}
 			ok2 := true
 			for _, r := range results[:len(results)-1] {
+				// an appender that fails hands the caller's own buffer back, unchanged (the convention of the Append…
+				// family): that is the caller's value, not a result the failed call produced
+				if p, isParam := r.(*ssa.Parameter); isParam {
+					if sl, isSl := p.Type().Underlying().(*types.Slice); isSl {
+						if bt, ok := sl.Elem().Underlying().(*types.Basic); ok && bt.Kind() == types.Uint8 {
+							continue
+						}
+					}
+				}
 				if !isZeroValue(r) {
 					// a value that is only non-zero on the nil-error path? check phi of extracts: conservative
 					ok2 = false
